@@ -154,3 +154,82 @@ Example C07_byte_chain_example_hypotheses : Inv c07_regs /\ sizes_ok c07_regs c0
 Proof. split; [apply inv_dec|apply sizes_ok_dec]; vm_compute; reflexivity. Qed.
 Print Assumptions C07_byte_chain_example_hypotheses.
 (* ---- END byte chains *)
+
+(* ---- BEGIN sizes from the inputs: the hypothesis `sizes_ok regs ops` of the byte-chain theorems above speaks about the
+   registers the TREE run produces.  ChainSize.v replaces it by a condition a caller can evaluate BEFORE running anything:
+       chain_budget regs ops < 2^26
+   where `chain_budget` folds, over the operation list, a per-operation bound `op_bound o M` on the encoded size of the
+   documents the operation can add when every register's encoding is at most M bytes, starting from the largest encoding
+   among the initial registers (at least 8, the null document an absent register reads as):
+       concat / array_insert: 2M + 16        object_insert k: 2M + |k| + 8        build_array rs: 4 + |rs| (4 + M)
+       build_object ks: 4 + sum over ks of (8 + |k| + M)        distinct / intersection / except: M + 8
+       select / get_by_path with path ps (any mode): 4 + path_fan ps * (4 + M), path_fan = product of the lengths of the
+       index lists `[i, j, k to l]` of the path (an index list can repeat children, once per entry)
+       every other operation (deletes, picks, strip_nulls, accessors, key paths, object_keys, re-encode): M.
+   The whole operation language `op3` is covered: nothing is left out. *)
+From JB Require Import ChainSize.
+
+Theorem C07_sizes_follow_from_input_sizes : forall regs ops, Inv regs -> chain_budget regs ops < 67108864 -> sizes_ok regs ops.
+Proof. exact sizes_ok_from_budget. Qed.
+Print Assumptions C07_sizes_follow_from_input_sizes.
+
+Theorem C07_sizes_follow_from_input_sizes_wfb : forall regs ops, Forall (fun v => wfb v = true) regs ->
+  chain_budget regs ops < 67108864 -> sizes_ok regs ops.
+Proof. exact sizes_ok_from_budget_wfb. Qed.
+Print Assumptions C07_sizes_follow_from_input_sizes_wfb.
+
+(* the byte-chain theorems with hypotheses on the inputs only *)
+Theorem C07_bytes_chain_from_input_sizes : forall ops regs_t, Inv regs_t -> chain_budget regs_t ops < 67108864 ->
+  run_b (map enc regs_t) ops = map enc (run3 regs_t ops).
+Proof. exact run_b_enc_from_input_sizes. Qed.
+Print Assumptions C07_bytes_chain_from_input_sizes.
+
+Theorem C07_bytes_chain_any_output_buffer_from_input_sizes : forall pre ops regs_t, Inv regs_t -> chain_budget regs_t ops < 67108864 ->
+  run_bp pre (map enc regs_t) ops = map enc (run3 regs_t ops).
+Proof. exact run_bp_enc_from_input_sizes. Qed.
+Print Assumptions C07_bytes_chain_any_output_buffer_from_input_sizes.
+
+Theorem C07_bytes_chain_at_every_step_from_input_sizes : forall ops1 ops2 regs_t, Inv regs_t ->
+  chain_budget regs_t (ops1 ++ ops2) < 67108864 -> run_b (map enc regs_t) ops1 = map enc (run3 regs_t ops1).
+Proof. exact run_b_enc_every_step_from_input_sizes. Qed.
+Print Assumptions C07_bytes_chain_at_every_step_from_input_sizes.
+Theorem C07_bytes_chain_base_from_input_sizes : forall ops regs_t, Inv regs_t -> chain_budget regs_t (map lift1 ops) < 67108864 ->
+  run_b (map enc regs_t) (map lift1 ops) = map enc (run regs_t ops).
+Proof. exact run_b_enc1_from_input_sizes. Qed.
+Print Assumptions C07_bytes_chain_base_from_input_sizes.
+Theorem C07_bytes_chain_keypaths_from_input_sizes : forall ops regs_t, Inv regs_t -> chain_budget regs_t (map lift2 ops) < 67108864 ->
+  run_b (map enc regs_t) (map lift2 ops) = map enc (run2 regs_t ops).
+Proof. exact run_b_enc2_from_input_sizes. Qed.
+Print Assumptions C07_bytes_chain_keypaths_from_input_sizes.
+
+Theorem C07_bytes_chain_canonical_from_input_sizes : forall ops regs_t, Inv regs_t -> chain_budget regs_t ops < 67108864 ->
+  Forall (fun b => exists v, b = enc v /\ wf_shape v = true /\ wf_size v = true /\ top_ok v /\
+                     parse_jsonb b = Ok (normalise v) /\ to_vec (normalise v) = b /\ is_jsonb b = true)
+         (run_b (map enc regs_t) ops).
+Proof. exact run_b_canonical_from_input_sizes. Qed.
+Print Assumptions C07_bytes_chain_canonical_from_input_sizes.
+
+(* what the budget is made of: the definitions, pinned by computation on small instances *)
+Example C07_budget_definition :
+  max_sz [VNull; VArr [VStr [120]; VNull]] = 13 /\
+  op_bound (lift1 (OConcat 0%nat 1%nat)) 100 = 216 /\
+  op_bound (lift1 (OObjectInsert 0%nat [107; 107] 1%nat true)) 100 = 210 /\
+  op_bound (lift1 (OBuildArray [0%nat; 0%nat; 1%nat])) 100 = 316 /\
+  op_bound (lift1 (OBuildObject [[107]; [107; 107]] [0%nat; 1%nat])) 100 = 223 /\
+  op_bound (lift1 (ODistinct 0%nat)) 100 = 108 /\
+  op_bound (lift1 (OStripNulls 0%nat)) 100 = 100 /\
+  op_bound (lift2 (ODeleteByKeypath 0%nat [KName [109]])) 100 = 100 /\
+  op_bound (OSelect 0%nat [PRoot; PDotWild; PIndices [AIndex (IIndex 0); ASlice (IIndex 0) (ILast 0); AIndex (ILast 0)]] MArray) 100 = 316 /\
+  chain_budget [VNull] [lift1 (OConcat 0%nat 0%nat); lift1 (OConcat 1%nat 1%nat)] = 80.
+Proof. vm_compute. repeat split; reflexivity. Qed.
+Print Assumptions C07_budget_definition.
+
+(* non-vacuity: the 13-operation chain of C07_byte_chain_example meets the budget (computed from c07_regs and c07_ops
+   alone), so its byte run equals its tree run by the theorem, not by running it *)
+Example C07_budget_example : chain_budget c07_regs c07_ops = 1392 /\ chain_budget c07_regs c07_ops < 67108864.
+Proof. vm_compute. split; reflexivity. Qed.
+Print Assumptions C07_budget_example.
+Example C07_bytes_chain_from_input_sizes_example : run_b (map enc c07_regs) c07_ops = map enc (run3 c07_regs c07_ops).
+Proof. apply C07_bytes_chain_from_input_sizes; [apply inv_dec; vm_compute; reflexivity|vm_compute; reflexivity]. Qed.
+Print Assumptions C07_bytes_chain_from_input_sizes_example.
+(* ---- END sizes from the inputs *)
